@@ -193,9 +193,9 @@ theorem indexDir_wf (c : Cfg) (hp : WFseg c.pfx = true) (name : Str) (hn : WFseg
   rfl
 
 theorem ikey_split (c : Cfg) (hp : WFseg c.pfx = true) (i : Index) (hn : WFseg i.name = true) (o : Obj)
-    (hv : WFseg (i.sel.get o) = true) (hid : WFseg o.id = true) :
+    (hsegs : ∀ s ∈ i.segs o, WFseg s = true) :
     ikey c i o = idxBase c i.name ++ joinSlash (i.segs o) := by
-  rw [ikey_wf c hp i hn o hv hid, joinSlash_append]; rfl
+  rw [ikey_wf c hp i hn o hsegs, joinSlash_append]; rfl
 
 theorem noslash_prefix_eq : ∀ (a b x y : Str), NoSlash a → NoSlash b → a ++ '/' :: x <+: b ++ '/' :: y → a = b := by
   intro a
@@ -217,7 +217,11 @@ theorem noslash_prefix_eq : ∀ (a b x y : Str), NoSlash a → NoSlash b → a +
       obtain ⟨h1, h2⟩ := List.cons_prefix_cons.mp h
       rw [h1, ih b' x y (fun hm => ha (List.mem_cons_of_mem _ hm)) (fun hm => hb (List.mem_cons_of_mem _ hm)) h2]
 
-theorem segs_ne_nil (i : Index) (o : Obj) : i.segs o ≠ [] := by unfold Index.segs; split <;> simp
+theorem segs_ne_nil (i : Index) (o : Obj) : i.segs o ≠ [] := by
+  unfold Index.segs
+  split
+  · exact splitSlash_ne_nil _
+  · intro h; exact splitSlash_ne_nil _ (List.append_eq_nil_iff.mp h).1
 
 theorem joinSlash_cons_form {L : List Str} (h : L ≠ []) : ∃ r, joinSlash L = '/' :: r := by
   cases L with
@@ -228,8 +232,7 @@ theorem joinSlash_cons_form {L : List Str} (h : L ≠ []) : ∃ r, joinSlash L =
 theorem dir_prefix_ikey {c : Cfg} (hc : c.wf = true) {i j : Index} (hi : i ∈ c.indexes) (hj : j ∈ c.indexes)
     {o : Obj} (ho : c.wfObj o = true) : (indexDir c i.name <+: ikey c j o) ↔ i = j := by
   obtain ⟨hp, hnames, hnd⟩ := wf_iff.mp hc
-  obtain ⟨hid, hv⟩ := wfObj_iff.mp ho
-  rw [indexDir_wf c hp i.name (hnames i hi), ikey_split c hp j (hnames j hj) o (hv j hj) hid]
+  rw [indexDir_wf c hp i.name (hnames i hi), ikey_split c hp j (hnames j hj) o (segs_wf ho hj)]
   obtain ⟨r, hr⟩ := joinSlash_cons_form (segs_ne_nil j o)
   rw [hr]
   constructor
@@ -262,18 +265,16 @@ theorem keyLt_of_ikey_lt {c : Cfg} (hc : c.wf = true) {i : Index} (hi : i ∈ c.
     (ha : c.wfObj a = true) (hb : c.wfObj b = true) (hsa : i.wfObj a = true) (hsb : i.wfObj b = true)
     (h : ikey c i a < ikey c i b) : keyLt (idxKey i.sel a) (idxKey i.sel b) = true := by
   obtain ⟨hp, hnames, _⟩ := wf_iff.mp hc
-  obtain ⟨haid, hav⟩ := wfObj_iff.mp ha
-  obtain ⟨hbid, hbv⟩ := wfObj_iff.mp hb
-  rw [ikey_split c hp i (hnames i hi) a (hav i hi) haid, ikey_split c hp i (hnames i hi) b (hbv i hi) hbid,
+  rw [ikey_split c hp i (hnames i hi) a (segs_wf ha hi), ikey_split c hp i (hnames i hi) b (segs_wf hb hi),
     append_lt_append_left] at h
-  have j1 : ∀ x : Str, joinSlash [x] = '/' :: x := by intro x; simp [joinSlash]
-  have j2 : ∀ x y : Str, joinSlash [x, y] = '/' :: (x ++ '/' :: y) := by intro x y; simp [joinSlash]
+  have j2 : ∀ x y : Str, joinSlash (splitSlash x ++ splitSlash y) = '/' :: (x ++ '/' :: y) := by
+    intro x y; rw [joinSlash_append, joinSlash_splitSlash, joinSlash_splitSlash]; rfl
   unfold Index.segs at h
   unfold keyLt idxKey
   cases hu : i.unique with
   | true =>
     rw [hu] at h
-    simp only [↓reduceIte, j1] at h
+    simp only [↓reduceIte, joinSlash_splitSlash] at h
     rw [List.cons_lt_cons_iff] at h
     rcases h with h | ⟨_, h⟩
     · exact absurd h (Char.lt_irrefl _)
@@ -283,15 +284,14 @@ theorem keyLt_of_ikey_lt {c : Cfg} (hc : c.wf = true) {i : Index} (hi : i ∈ c.
     simp only [Bool.false_eq_true, ↓reduceIte, j2] at h
     rw [List.cons_lt_cons_iff] at h
     have hsa' : SepSafe (i.sel.get a) = true := by
-      have := hsa; simp only [Index.wfObj, hu, Bool.false_or, Bool.and_eq_true] at this; exact this.2
+      have := hsa; simp only [Index.wfObj, hu, Bool.false_or] at this; exact this
     have hsb' : SepSafe (i.sel.get b) = true := by
-      have := hsb; simp only [Index.wfObj, hu, Bool.false_or, Bool.and_eq_true] at this; exact this.2
+      have := hsb; simp only [Index.wfObj, hu, Bool.false_or] at this; exact this
     rcases h with h | ⟨_, h⟩
     · exact absurd h (Char.lt_irrefl _)
     · rcases (composite_lt_iff _ _ _ _ hsa' hsb').mp h with h | ⟨h1, h2⟩
       · simp [h]
       · simp [h1, h2]
-
 
 /-! ### The listing -/
 
